@@ -842,7 +842,7 @@ def oracle(case, obs):
         bad('interleaved-iteration-differs', f'{where}: two live client_ids() iterators zipped yield {it["two_live_ids"]}')
       if it['pieces'] != ['V', cl[0]]:
         bad('interleaved-iteration-differs', f'{where}: one clients() pass consumed in pieces (islice, iter(), rest) yields '
-            f'{it["pieces"][1] if it["pieces"][0] != "V" else [c for c, _ in it["pieces"][1]]}')
+            f'{it["pieces"] if it["pieces"][0] != "V" else [c for c, _ in it["pieces"][1]]}')
       if it['broken_for'] != ['V', cl]:
         bad('interleaved-iteration-differs', f'{where}: a full clients() pass after an abandoned for loop differs')
     if not sh[2]['contract']:
